@@ -11,9 +11,11 @@ RULE = ('resize_array on 1-d arrays: 5 pad modes x 2 directions x input lengths 
         'every offset from -2 to |m-n|+2 (legal and illegal) x small-integer contents x pad constants; '
         'a case is non-trivial when the array is not identically zero or the outcome is an error; '
         'distinct by (mode, direction, n, n_out, offset, pad_const, dtype, values)')
-ASSUMPTIONS = ['exact arithmetic: inputs are small integers so every float operation is exact',
+ASSUMPTIONS = ['exact arithmetic: inputs are small integers so every float operation is exact '
+               '(that the Q-executed 1-d model is the restriction of the R model is a theorem: resize1_Q_is_restriction_of_R)',
                'NumPy slicing / broadcasting / overlapping-assignment semantics are trusted as modelled']
-TRUSTED = ['translate/padding.py (Python ast -> Gallina slice arithmetic and guards), fail-closed',
+TRUSTED = ['translate/padding.py (Python ast -> Gallina: slice arithmetic, legality guards, offset validation, '
+           'num_l/num_r tree, new_minpt/new_maxpt, offset_float), fail-closed',
            'C16/Model.v Python-slice semantics and the statement sequence of _apply_padding']
 SHARD_SIZE = 400
 
